@@ -82,11 +82,27 @@ def decide_literal_type(a_literal, base_namespace=None):
         return a_literal[a_literal.find("\"^^")+4:-1]
     elif a_literal.strip().endswith(">"):
         candidate_type = a_literal[a_literal.find("\"^^") + 4:-1]  # plain uri, no corners
-        if base_namespace is not None and not candidate_type.startswith("http"):
+        if base_namespace is not None and not starts_with_a_scheme(candidate_type):
             return base_namespace + candidate_type
         return candidate_type
     else:
         raise RuntimeError("Unrecognized literal type:" + a_literal)
+
+
+_SCHEME_NON_INITIAL_CHARS = "0123456789+.-"
+_SCHEME_CHARS = "abcdefghijklmnopqrstuvwxyzABCDEFGHIJKLMNOPQRSTUVWXYZ" + _SCHEME_NON_INITIAL_CHARS
+
+
+def starts_with_a_scheme(an_iri):
+    """
+    Absolute IRIs (http:, https:, urn:, ftp:, mailto:...) start with 'scheme:'. They are not relative to a base
+    """
+    for i in range(len(an_iri)):
+        if an_iri[i] == ":":
+            return i > 0
+        if an_iri[i] not in _SCHEME_CHARS or (i == 0 and an_iri[i] in _SCHEME_NON_INITIAL_CHARS):
+            return False
+    return False
 
 
 def is_a_correct_uri(target_uri, prefix_namespace_dict):
